@@ -64,7 +64,85 @@ async fn apply_unary_predicate(
             .await;
     }
 
+    // The subscript of `-v name[subscript]` is an arithmetic expression unless the
+    // variable is an associative array; evaluate it here, where the shell is mutable.
+    let expanded_operand = if matches!(op, ast::UnaryPredicate::ShellVariableIsSetAndAssigned) {
+        evaluate_subscript_of_variable_reference(expanded_operand, shell)
+    } else {
+        expanded_operand
+    };
+
     apply_unary_predicate_to_str(op, expanded_operand.as_str(), shell, params)
+}
+
+fn evaluate_subscript_of_variable_reference(
+    operand: String,
+    shell: &mut Shell<impl extensions::ShellExtensions>,
+) -> String {
+    if let Ok(brush_parser::word::Parameter::NamedWithIndex { name, index }) =
+        brush_parser::word::parse_parameter(operand.as_str(), &shell.parser_options())
+    {
+        let is_assoc = shell
+            .env()
+            .get(name.as_str())
+            .is_some_and(|(_, var)| var.value().is_associative_array());
+
+        if !is_assoc {
+            if let Ok(expr) = brush_parser::arithmetic::parse(index.as_str()) {
+                if let Ok(value) = shell.eval_arithmetic(&expr) {
+                    return std::format!("{name}[{value}]");
+                }
+            }
+        }
+    }
+
+    operand
+}
+
+/// Tells whether the variable reference `name`, `name[subscript]` or `name[@]` names
+/// something that is set. A bare array name stands for its element 0 (or key "0").
+fn is_variable_reference_set(
+    operand: &str,
+    shell: &Shell<impl extensions::ShellExtensions>,
+) -> Result<bool, error::Error> {
+    let (name, index) = match brush_parser::word::parse_parameter(operand, &shell.parser_options())
+    {
+        Ok(brush_parser::word::Parameter::Named(name)) => (name, None),
+        Ok(brush_parser::word::Parameter::NamedWithIndex { name, index }) => (name, Some(index)),
+        Ok(brush_parser::word::Parameter::NamedWithAllIndices { name, concatenate }) => {
+            // `name[@]` / `name[*]`: any element of an indexed array; for an associative
+            // array the subscript is an ordinary key.
+            let Some((_, var)) = shell.env().get(name.as_str()) else {
+                return Ok(false);
+            };
+
+            if var.value().is_associative_array() {
+                let key = if concatenate { "*" } else { "@" };
+                return Ok(var.value().get_at(key, shell).is_ok_and(|v| v.is_some()));
+            }
+
+            return Ok(!var.value().element_keys(shell).is_empty());
+        }
+        Ok(brush_parser::word::Parameter::Positional(n)) => {
+            return Ok(n == 0 || (n as usize) <= shell.current_shell_args().len());
+        }
+        _ => return Ok(operand == "0" || shell.env().is_set(operand)),
+    };
+
+    let Some((_, var)) = shell.env().get(name.as_str()) else {
+        return Ok(false);
+    };
+
+    let index = match (&index, var.value().is_array()) {
+        (Some(index), _) => index.as_str(),
+        (None, true) => "0",
+        (None, false) => return Ok(var.value().is_set()),
+    };
+
+    Ok(var
+        .value()
+        .get_at(index, shell)
+        .is_ok_and(|value| value.is_some()))
 }
 
 #[expect(clippy::too_many_lines)]
@@ -184,7 +262,9 @@ pub(crate) fn apply_unary_predicate_to_str(
                 Ok(false)
             }
         }
-        ast::UnaryPredicate::ShellVariableIsSetAndAssigned => Ok(shell.env().is_set(operand)),
+        ast::UnaryPredicate::ShellVariableIsSetAndAssigned => {
+            is_variable_reference_set(operand, shell)
+        }
         ast::UnaryPredicate::ShellVariableIsSetAndNameRef => match shell.env().get(operand) {
             Some((_, reffed)) => Ok(reffed.value().is_set() && reffed.is_treated_as_nameref()),
             None => Ok(false),
